@@ -75,6 +75,13 @@ class Funcs:
             t.attempt(("f", ("a", "flaky")), "e")
         return x + 1
 
+    def touch(self, x):
+        """a user function with an effect on the data: whoever evaluates an expression containing it leaves a mark"""
+        d = self.__dict__.get("_data")
+        if d is not None:
+            dict.__setitem__(d, "touched", dict.get(d, "touched", 0) + 1)
+        return x
+
     def scale(self, x, unit):
         return x * {"m": 1, "k": 1000}[unit]
 
